@@ -170,6 +170,11 @@ func checkC18(c *Ctx) {
 		"text T {\n    format(\"Hello there world\", 100)\n}\n",
 		"script S {\n    msgbox(format(\"Hello there world\",\n        numLines=3, cursorOverlapWidth=2))\n}\n",
 		"text T {\n    format(\"Hello there world\", 100, \"nope\")\n}\n",
+		// format() texts with control codes, stray braces, multi-byte letters, nothing at all
+		"script S {\n    msgbox(format(\"Hello {PLAYER}, welcome to {STR_VAR_1} town\\pBye {COLOR RED}x\"))\n}\n",
+		"text T {\n    format(\"{PLAYER}\")\n}\ntext U {\n    format(\"a } b { c d\")\n}\ntext V {\n    format(\"\")\n}\n",
+		"text T {\n    format(\"é{É}ß \\n  {}\\l\\p\\N \\\\ €\", 40)\n}\n",
+		"script S {\n    msgbox(format(\"{A}{B} {C D} {E\", numLines=0, maxLineLength=0))\n}\n",
 		"mapscripts M {\n    MAP_SCRIPT_ON_LOAD {}\n    MAP_SCRIPT_ON_FRAME_TABLE [\n        VAR_A, 0 {}\n    ]\n}\n",
 	} {
 		for _, o := range optSets(genAutoVar()) {
